@@ -111,7 +111,7 @@ func vTableHarness(li int) {
 	nMax, kLen, vLen := 2, 1, 1
 	// thorough tier: one dimension at a time is raised (all of them at once is out of reach: more than 40
 	// minutes per loader and solver time-outs) - 0: three keys; 1: keys of up to two bytes; 2: every
-	// compression pair and a small write buffer
+	// compression pair with a small write buffer, values nil / empty / one byte
 	shape := -1
 	if vrt.Thorough() {
 		shape = vrt.Choose("shape", 3)
@@ -126,7 +126,7 @@ func vTableHarness(li int) {
 	keys := vKeys(n, kLen)
 	vals := make([][]byte, n)
 	for i := range vals {
-		if vrt.Thorough() {
+		if shape == 2 {
 			vals[i] = vrt.BytesOrNil(vrt.K("v", i), vLen)
 		} else if vrt.Choose(vrt.K("v", i, "nil"), 2) == 0 {
 			vals[i] = vrt.BytesN(vrt.K("v", i), 1)
@@ -138,7 +138,7 @@ func vTableHarness(li int) {
 	if shape == 2 {
 		dataComp = vComps[vrt.Choose("datacomp", 4)]
 		indexComp = vComps[vrt.Choose("indexcomp", 2)]
-		wbuf = []int{5, 64}[vrt.Choose("wbuf", 2)]
+		wbuf = 5
 	}
 	// the bloom filter sizing hint is only a hint: a table may hold more records than announced
 	var extra []WriterOption
